@@ -92,6 +92,7 @@ type (
 func (dsc *dataStoreCommand) lock() {
 	if !atomic.CompareAndSwapUint32(&dsc.ds.multiLock, dsc.id, dsc.id) {
 		// multi-lock not acquired, acquire a single lock
+		simBeforeLock(&dsc.ds.mu, "dsc.ds.mu")
 		dsc.ds.mu.Lock()
 	}
 }
@@ -100,6 +101,7 @@ func (dsc *dataStoreCommand) unlock() {
 	if !atomic.CompareAndSwapUint32(&dsc.ds.multiLock, dsc.id, dsc.id) {
 		// release the single lock
 		dsc.ds.mu.Unlock()
+		simAfterUnlock(&dsc.ds.mu, "dsc.ds.mu")
 	}
 }
 
@@ -108,11 +110,13 @@ func (dsc *dataStoreCommand) unlockAndUnblock(uk *unblockKey) {
 	if !atomic.CompareAndSwapUint32(&dsc.ds.multiLock, dsc.id, dsc.id) {
 		// release the single lock
 		dsc.ds.mu.Unlock()
+		simAfterUnlock(&dsc.ds.mu, "dsc.ds.mu")
 	}
 }
 
 func (dsc *dataStoreCommand) acquireExclusive() {
 	// give ownership to the caller
+	simBeforeLock(&dsc.ds.mu, "dsc.ds.mu")
 	dsc.ds.mu.Lock()
 
 	// bypass the lock on nested callers
@@ -124,6 +128,7 @@ func (dsc *dataStoreCommand) releaseExclusive() {
 	atomic.StoreUint32(&dsc.ds.multiLock, dsc.id)
 	// release and let the next subsequent command execute (if any)
 	dsc.ds.mu.Unlock()
+	simAfterUnlock(&dsc.ds.mu, "dsc.ds.mu")
 }
 
 func (dsc *dataStoreCommand) dumpKey(l lane.Lane, keyName string) {
@@ -719,7 +724,9 @@ func (dsc *dataStoreCommand) copy(srcKeyName, destKeyName string, dds *dataStore
 	} else {
 		// to acquire two data store locks, the global lock must be held, to prevent
 		// a deadlock from two conflicting multi-data store operations
+		simBeforeLock(&multiDataStoreLock, "multiDataStoreLock")
 		multiDataStoreLock.Lock()
+		defer simAfterUnlock(&multiDataStoreLock, "multiDataStoreLock")
 		defer multiDataStoreLock.Unlock()
 
 		dsc.lock()
@@ -751,7 +758,9 @@ func (dsc *dataStoreCommand) move(srcKeyName, destKeyName string, dds *dataStore
 	} else {
 		// to acquire two data store locks, the global lock must be held, to prevent
 		// a deadlock from two conflicting multi-data store operations
+		simBeforeLock(&multiDataStoreLock, "multiDataStoreLock")
 		multiDataStoreLock.Lock()
+		defer simAfterUnlock(&multiDataStoreLock, "multiDataStoreLock")
 		defer multiDataStoreLock.Unlock()
 
 		dsc.lock()
